@@ -44,7 +44,7 @@ KINDS = ("skip","payload-skip","bad-req","bad-res","ok")
 
 
 def run(rep, tier, seed):
-    return C.standard_run(rep, PROP, ["Model/CaseDispatch.vo", "Model/CaseHistory.vo"], body_factory(tier, seed), rule=RULE)
+    return C.standard_run(rep, PROP, ["Model/CaseDispatch.vo", "Model/CaseHistory.vo"], [body_factory(tier, seed + 1000 * i) for i in range(3 if tier == "thorough" else 1)], rule=RULE)
 
 
 def replay(d):
